@@ -108,3 +108,9 @@ PROPS['C13'] = dict(level='model_checking',
             [SEQ('reduce_interr_n%d_e%d' % (n, e), 'C13_streams.cpp', 'h_reduce_interr', exc=True, opts=dict(params=[n, e], max_visits=200), desc='reduce_stream over a source failing with a typed (int) error at position %d' % (e - 1)) for n in (1, 3) for e in range(1, n + 2)] +
             [SEQ('take_until_abandon_n%d_t%d' % (n, t), 'C13_streams.cpp', 'h_take_until_abandon', exc=True, opts=dict(params=[n, t], max_visits=200), desc='for_each(take_until(src,never)) whose function throws at element %d' % t) for n in (1, 3) for t in range(0, n)] +
             [SEQ('range_single_n%d' % n, 'C13_streams.cpp', 'h_range_single', exc=True, opts=dict(params=[n], max_visits=200), desc='range_stream of %d elements' % n) for n in (0, 1, 4)])
+
+PROPS['C02'] = dict(level='fault_enumeration',
+  bounds='sequential; one injected throw per run at each of the first 10 fault sites (enumerated) (copies/moves of stored values, connect of child senders); catalogue of 10 expression shapes',
+  outside='two simultaneous faults; allocation failure; interleavings where a completion destroys the operation on another thread (see C19/C09)',
+  harnesses=[SEQ('fault_%s_k%d' % (n, k), 'C02_faults.cpp', 'h_f_' + n, exc=True, opts=dict(params=[k], max_visits=300, max_rec=8), desc='%s: throw injected at fault site %d%s' % (n, k, ' (no fault)' if k == 99 else '')) for n in
+     ['finally', 'finally_done', 'let_value', 'let_error', 'let_done', 'sequence', 'repeat', 'when_all', 'allocate'] for k in list(range(10)) + [99]])
